@@ -25,6 +25,8 @@ struct tlog {
     uint64_t when[4];
 };
 static struct tlog tl[NT];
+static int run_collect_seq[NT]; /* schedule point at which the scheduler thread took its queue lock before RUNning task i */
+static int cancel_done_seq[NT]; /* schedule point count when cancel(task i) returned to its caller (0 = never cancelled) */
 static struct aws_task task[NT];
 static uint64_t task_time[NT]; /* 0 = now */
 static struct aws_thread_scheduler *ts;
@@ -46,6 +48,7 @@ static void task_fn(struct aws_task *t, void *arg, enum aws_task_status status) 
         if (reentrant_mode == 2) aws_thread_scheduler_cancel_task(ts, &task[2]);
     }
     struct tlog *l = &tl[i];
+    if (status == AWS_TASK_STATUS_RUN_READY && !run_collect_seq[i]) run_collect_seq[i] = vs_last_lock_seq(vs_current_tid());
     if (l->n < 4) {
         l->status[l->n] = (int)status;
         l->tid[l->n] = vs_current_tid();
@@ -66,6 +69,8 @@ static void setup(void) {
     galloc_reset();
     A = galloc_get(0, 0);
     memset(tl, 0, sizeof(tl));
+    memset(run_collect_seq, 0, sizeof(run_collect_seq));
+    memset(cancel_done_seq, 0, sizeof(cancel_done_seq));
     after_release = invoked_after_release = ran_flag = 0;
     reentrant_mode = reentrant_done = 0;
     ts = aws_thread_scheduler_new(A, NULL);
@@ -96,6 +101,12 @@ static void check_task(int i, int handed_over, int cancel_requested) {
                      (unsigned long long)l->when[k], (unsigned long long)task_time[i]);
         }
     }
+    /* "cancelled while still pending": the scheduler thread collects its hand-over queues under the mutex; a cancellation
+     * whose call had already RETURNED when the thread took that lock for the iteration that ran the task was queued while the
+     * task was still pending, so the task must not have been run (the order of the two critical sections is a fact of the
+     * execution, read from the scheduler's event sequence) */
+    if (l->status[0] == AWS_TASK_STATUS_RUN_READY && cancel_done_seq[i] && run_collect_seq[i] && cancel_done_seq[i] < run_collect_seq[i] && l->tid[0] == 1)
+        vs_fail("ran-although-cancel-was-queued", "task %d ran although its cancellation had been queued (cancel returned at point %d) before the scheduler thread collected its queues (point %d) for that run", i, cancel_done_seq[i], run_collect_seq[i]);
     if (l->n == 1) return;
     /* DESIGN §6: RUN first, then the acknowledgement of a cancel request that arrived after the run */
     if (cancel_requested && l->n == 2 && l->status[0] == AWS_TASK_STATUS_RUN_READY && l->status[1] == AWS_TASK_STATUS_CANCELED) return;
@@ -143,6 +154,7 @@ static void s2(void) {
 static void *s3_b(void *arg) {
     (void)arg;
     aws_thread_scheduler_cancel_task(ts, &task[0]);
+    cancel_done_seq[0] = vs_seq_now();
     return NULL;
 }
 static void s3(void) {
@@ -162,6 +174,7 @@ static void s4(void) {
     task_time[0] = now + 3600ull * 1000000000ull;
     aws_thread_scheduler_schedule_future(ts, &task[0], task_time[0]);
     aws_thread_scheduler_cancel_task(ts, &task[0]);
+    cancel_done_seq[0] = vs_seq_now();
     int h[NT] = {1, 0, 0}, c[NT] = {1, 0, 0};
     finish(h, c);
     if (tl[0].n >= 1) VS_CHECK(tl[0].status[0] == AWS_TASK_STATUS_CANCELED || tl[0].when[0] >= task_time[0], "run-early", "far-future task ran early");
@@ -213,6 +226,7 @@ static void *s7_b(void *arg) {
 static void *s7_c(void *arg) {
     (void)arg;
     aws_thread_scheduler_cancel_task(ts, &task[2]);
+    cancel_done_seq[2] = vs_seq_now();
     return NULL;
 }
 static void s7(void) {
@@ -262,6 +276,42 @@ static void s9(void) {
     VS_CHECK(tl[2].n == 1, "far-future-task-not-invoked-once", "far-future task: %d invocations", tl[2].n);
 }
 
+/* S10: a second reference is held by a client thread; the two owners release concurrently - exactly one of the two
+ * releases is the last one and does the shutdown, once (added after a seeded change in aws_ref_count_release) */
+static void *s10_c(void *arg) {
+    (void)arg;
+    aws_thread_scheduler_release(ts);
+    return NULL;
+}
+static void s10(void) {
+    setup();
+    aws_thread_scheduler_acquire(ts);
+    aws_thread_scheduler_schedule_now(ts, &task[0]);
+    pthread_t a;
+    pthread_create(&a, NULL, s10_c, NULL);
+    aws_thread_scheduler_release(ts); /* races the client's release */
+    pthread_join(a, NULL);
+    after_release = 1;
+    VS_CHECK(vs_threads_unfinished() == 0, "thread-alive-after-release", "%d thread(s) still running after both references were released", vs_threads_unfinished());
+    check_task(0, 1, 0);
+    VS_CHECK(ga.live_blocks == 0, "leak", "%llu allocation(s) still live after both references were released", (unsigned long long)ga.live_blocks);
+}
+/* S11: a timed task is cancelled right away and the scheduler released: whichever of timer expiry (a clock deviation)
+ * and cancellation is collected first decides - but a cancellation queued before the queues were collected wins */
+static void s11(void) {
+    setup();
+    uint64_t now = 0;
+    aws_high_res_clock_get_ticks(&now);
+    task_time[0] = now + 100ull * 1000000ull;
+    aws_thread_scheduler_schedule_future(ts, &task[0], task_time[0]);
+    pthread_mutex_lock(&hm); /* give the scheduler thread a chance to take the task over before the cancel */
+    pthread_mutex_unlock(&hm);
+    aws_thread_scheduler_cancel_task(ts, &task[0]);
+    cancel_done_seq[0] = vs_seq_now();
+    int h[NT] = {1, 0, 0}, c[NT] = {1, 0, 0};
+    finish(h, c);
+}
+
 static uint64_t user_digest(void) {
     uint64_t h = 1469598103934665603ull;
     for (int i = 0; i < NT; ++i) {
@@ -284,6 +334,8 @@ int main(int argc, char **argv) {
         {.name = "S6-timed-run", .run = s6, .bound_quick = 3, .bound_thorough = 4, .digest = user_digest},
         {.name = "S8-task-schedules-task", .run = s8, .bound_quick = 2, .bound_thorough = 3, .digest = user_digest},
         {.name = "S9-task-cancels-task", .run = s9, .bound_quick = 2, .bound_thorough = 3, .digest = user_digest},
+        {.name = "S10-two-owners-release", .run = s10, .bound_quick = 2, .bound_thorough = 3, .digest = user_digest},
+        {.name = "S11-timed-task-cancelled", .run = s11, .bound_quick = 3, .bound_thorough = 4, .digest = user_digest},
         {.name = "S7-three-clients", .run = s7, .bound_quick = -1, .bound_thorough = 1, .digest = user_digest},
     };
     return vsx_main(sc, (int)(sizeof(sc) / sizeof(sc[0])));
